@@ -294,6 +294,45 @@ def _s3c_named_aliases(program, res):
             res.ok("C24-S3", f"{op} (also reachable as {', '.join(names)}) raises for an operand it can not take")
 
 
+def _s5_operand_consumed_once(program, res):
+    """every method and helper takes "any iterable" — a generator or another one-shot iterator included, which can be walked once.  The raw argument may
+    therefore be consumed (iterated, or handed to set() / OrderedSet() / a helper that iterates it) only once; after `other = set(other)` the name stands for
+    the materialised copy.  A second walk of the raw argument finds nothing: `s ^ iter([...])` silently loses every element that is only in the argument"""
+    mod = program.module("OrderedSet")
+    n = 0
+    funcs = [f for f in program.all_functions() if f.module is mod]
+    for f in funcs:
+        params = [p for p in f.params() if p != "self"]
+        vararg = f.node.args.vararg.arg if f.node.args.vararg else None
+        for p in params:
+            rebinds = [st.lineno for st in ast.walk(f.node) if isinstance(st, ast.Assign) and any(isinstance(t, ast.Name) and t.id == p for t in st.targets)]
+            first_rebind = min(rebinds) if rebinds else 10 ** 9
+            uses = []
+            for nd in ast.walk(f.node):
+                if isinstance(nd, ast.Call):
+                    callee = dotted_name(nd.func) or ""
+                    if callee in ("isinstance", "iter", "len", "type", "repr", "str", "id"):
+                        continue
+                    for a_ in nd.args:
+                        if isinstance(a_, ast.Name) and a_.id == p and nd.lineno <= first_rebind:
+                            uses.append(nd)
+                elif isinstance(nd, (ast.For, ast.comprehension)):
+                    it = nd.iter
+                    if isinstance(it, ast.Name) and it.id == p and getattr(nd, "lineno", getattr(it, "lineno", 0)) <= first_rebind:
+                        uses.append(it)
+            if p == vararg:
+                continue
+            n += 1
+            if len(uses) > 1:
+                res.analysed(f)
+                res.fail_at("C24-S2", f, f"operand-consumed-twice:{f.name}:{p}",
+                            f"{f.qualname} walks its raw argument `{p}` {len(uses)} times (`{unparse(uses[0])[:40]}`, `{unparse(uses[1])[:40]}`): a generator or other one-shot "
+                            f"iterator is empty the second time, so the elements that are only in `{p}` are silently dropped", uses[1])
+            else:
+                res.ok("C24-S2", f"{f.qualname}: the raw argument `{p}` is consumed at most once", nontrivial=False)
+    res.expect_count("C24-S2", "iterable parameters inspected", n, 15)
+
+
 def _s4_relations(program, res):
     """<=, <, >=, > (issubset / issuperset are aliases) accept any iterable like set's methods do: membership has to be tested in a
     materialised set, not with `in` on the raw argument (an iterator is consumed, a string matches substrings, a Series looks at its index)"""
@@ -326,6 +365,7 @@ def run(program, res, tier):
     _s3_inherited_operators(program, res)
     _s3b_delegating_operators(program, res)
     _s3c_named_aliases(program, res)
+    _s5_operand_consumed_once(program, res)
     _s4_relations(program, res)
     _check_filter_helper(program, res, "ordered_intersect", ast.In)
     _check_filter_helper(program, res, "ordered_diff", ast.NotIn)
